@@ -59,6 +59,14 @@ Fixpoint corrupts_of (l : list val) : option (list (nat * byte)) :=
 
 Definition run (inp : val) : option val :=
   match inp with
+  | VL [VS _; VB req; VB added] =>
+      (* live mode: the pipe ids on the reply frame for a request with pipe [req] whose
+         handler appended [added] *)
+      let reg := registry_of [] in
+      match pipe_append reg [] req with
+      | (p, None) => Some (VL [VB (pipe_ids (reply_pipe reg p added))])
+      | _ => None
+      end
   | VL [VB ids; VB payload; VL gz; VL cor] =>
       match pairs_of gz, corrupts_of cor with
       | Some t, Some cs =>
